@@ -68,7 +68,7 @@ PROPS["C02"] = dict(
                "exactly the fields the gABI layout designates (zero/sign extension, r_info/st_info/st_other/version-index splits). This is effectively exhaustive over a record's bytes, which no finite test list is.",
     level_note="Bound: one record per call, buffer = ABI size + 4 bytes; private link fields (vd_aux/vd_next/...) and the note header are covered behaviourally by C13/C14; trusted: the layout tables in harness/core/src/c02.rs (from the gABI/GNU docs), Kani/CBMC/CaDiCaL; usize = 64 bit.",
     groups=[
-        K("core", ["c02::"], functions=["<T as ParseAt>::{parse_at,size_for,validate_entsize} for SectionHeader, ProgramHeader, Symbol, Rel, Rela, Dyn, CompressionHeader, SysVHashHeader, GnuHashHeader, VersionIndex, VerDef, VerDefAux, VerNeed, VerNeedAux, NoteGnuAbiTag, u32, u64",
+        K("core", ["c02::", "c10::ident_"], functions=["file::parse_ident (16 symbolic e_ident bytes, 4 byte-order specs: class, data, OSABI and ABI version taken from bytes 4, 5, 7, 8)", "<T as ParseAt>::{parse_at,size_for,validate_entsize} for SectionHeader, ProgramHeader, Symbol, Rel, Rela, Dyn, CompressionHeader, SysVHashHeader, GnuHashHeader, VersionIndex, VerDef, VerDefAux, VerNeed, VerNeedAux, NoteGnuAbiTag, u32, u64",
                                         "FileHeader::parse_tail", "Symbol::{st_bind,st_symtype,st_vis,is_undefined}", "Dyn::{d_val,d_ptr}", "VersionIndex::{index,is_hidden,is_local,is_global}"],
           bounds="record bytes all symbolic; buffer capacity size+4 with symbolic length; start offset any usize; class fixed per harness; byte order symbolic; unwind 9",
           timeout_s=600),
@@ -315,12 +315,18 @@ PROPS["C06"] = dict(
     level_text="The elf crate is compiled with DEFAULT features (where an allocation could compile) and std::alloc::{alloc, alloc_zeroed, realloc} are replaced by stubs that assert false; the solver shows that no path of opening a file, "
                "every ElfBytes accessor (caller-supplied fully symbolic headers, so corrupted inputs included), lazy tables, string table and note iteration reaches an allocator entry point for any input within the bounds. A witness harness that does allocate must fail (it does). "
                "The feature-matrix clause has no symbolic variable: each of the 8 subsets of {alloc,std,to_str} must compile, and the --no-default-features rlib must list only core and compiler_builtins as external crates (rustc -Zls).",
-    level_note="Bound: 128-byte constant file with symbolic header arguments; header bytes symbolic for open (<=66 bytes); views on <=24 symbolic bytes. Hash-table and symbol-version lookups under the stub are in the thorough tier. The feature matrix is a build obligation, not a solver verdict (stated in DESIGN).",
+    level_note="Bound: 128-byte constant file with symbolic header arguments; header bytes symbolic for open (<=66 bytes); views on <=24 symbolic bytes. Long hash chains are out of the bounded harnesses' reach (a 71-link constant-table harness did not finish in 35 min / 13 GB and was dropped). Engine B's structural obligation (no call edge to an allocating function in any MIR body of the slice parser) has no input bound at all. The feature matrix is a build obligation, not a solver verdict (stated in DESIGN).",
     groups=[
-        K("alloc", ["z::", "zt::"], functions=["ElfBytes::minimal_parse and every ElfBytes accessor", "ParsingTable::{get,iter}", "StringTable::{get,get_raw}", "NoteIterator::next", "section_header_by_name on a 3-section file with a non-UTF-8 section name"], stubs=_STUBS,
-          bounds="constant 128-byte file + fully symbolic SectionHeader/ProgramHeader arguments; open on <=66 symbolic bytes; views on <=24 symbolic bytes", timeout_s=1500, extra_kani=["-Z", "stubbing"], jobs=4),
+        K("alloc", ["z::", "zt::"], functions=["SysVHashTable::{new,find}", "ElfBytes::minimal_parse and every ElfBytes accessor", "ParsingTable::{get,iter}", "StringTable::{get,get_raw}", "NoteIterator::next", "section_header_by_name on a 3-section file with a non-UTF-8 section name"], stubs=_STUBS,
+          bounds="constant 128-byte file + fully symbolic SectionHeader/ProgramHeader arguments; open on <=66 symbolic bytes; views on <=24 symbolic bytes; SysV hash lookup: 28-byte ELF32 table with every bucket and chain word symbolic, 3 symbols with symbolic names, query 0..2 symbolic bytes", timeout_s=1500, extra_kani=["-Z", "stubbing"], jobs=4),
         K("alloc", ["zw::"], functions=["witness: Vec::with_capacity under the same stubs must be caught"], stubs=_STUBS, bounds="n in 1..7", timeout_s=300, extra_kani=["-Z", "stubbing"],
           expect_fail="heap allocation reached"),
+        M(["Lnoalloc"], ["C06.", "Lnoalloc."], bounds="engine B, structural: every MIR body of the crate built with default features, except those of elf_stream.rs and the alloc-gated *_to_string helpers, is scanned for call edges "
+          "(all call terminators of all non-cleanup blocks, closures included) to an allocating function (Vec/String/Box/Rc/Arc/collections/Cow methods, to_vec/to_owned/to_string/format/with_capacity/collect::<Vec..>, alloc::*). "
+          "Path-insensitive, so it holds for every input with no size or loop bound; an edge found is confirmed natively with the counting-allocator program before it is reported"),
+        K("alloc", ["zs::"], tier="thorough", functions=["GnuHashTable::{new,find}", "SymbolVersionTable::{get_requirement,get_definition}", "VerNeedIterator/VerDefIterator/VerDefAuxIterator::next"], stubs=_STUBS,
+          bounds="GNU 32-byte ELF32 table with symoffset, shift, bloom word, bucket and both chain words symbolic, 3 symbols with symbolic names, query 0..2 symbolic bytes; symbol versions: one Verneed (cnt<=2) + two Vernaux, one Verdef (cnt<=1) + one Verdaux "
+          "with symbolic links, ids, flags, two version indexes, any query index", timeout_s=3000, extra_kani=["-Z", "stubbing"], jobs=2),
         X("features"),
     ],
     assumptions=["allocation is reachable only through std::alloc::{alloc, alloc_zeroed, realloc} (Rust's global allocator API)"],
